@@ -10,103 +10,7 @@ from verif import projgen as pg
 ENV_ORDERS = ['asis', 'reversed', 'sorted']
 DIR_ORDERS = ['native', 'reversed', 'sorted']
 
-RICH = {
-    'meson.build': '''project('rich', 'c', version: '1.2.3', default_options: ['warning_level=2', 'c_std=c99'], license: ['MIT', 'BSD-3-Clause'])
-pkg = import('pkgconfig')
-fs = import('fs')
-cdata = configuration_data()
-foreach k, v : {'ZETA': 1, 'ALPHA': 'a', 'MID': true, 'BETA': 0, 'OMEGA': 'w', 'GAMMA': 3, 'DELTA': false}
-  cdata.set(k, v)
-endforeach
-cdata.set_quoted('NAME', meson.project_name())
-configure_file(output: 'config.h', configuration: cdata)
-configure_file(input: 'tmpl.in', output: 'tmpl.out', configuration: cdata)
-add_project_arguments('-DPROJ_B', '-DPROJ_A', language: 'c')
-add_project_link_arguments('-Wl,--as-needed', language: 'c')
-inc = include_directories('inc', 'inc2')
-gen_h = custom_target('gen_h', input: 'g.h.in', output: 'g.h', command: ['cp', '@INPUT@', '@OUTPUT@'], install: true, install_dir: get_option('includedir'))
-gen_c = custom_target('gen_c', input: 'g.c.in', output: ['g1.c', 'g2.h'], command: ['sh', '-c', 'cp "$0" "$1"; echo > "$2"', '@INPUT@', '@OUTPUT0@', '@OUTPUT1@'])
-z = static_library('zlibish', 'z.c', include_directories: inc, install: true)
-m = shared_library('mlib', 'm.c', gen_h, link_with: z, version: '2.3.4', soversion: '2', install: true, c_args: ['-DM_Z', '-DM_A'])
-b = both_libraries('blib', 'b.c', link_with: [m, z], install: true)
-zdep = declare_dependency(link_with: z, include_directories: inc, compile_args: ['-DZDEP'])
-mdep = declare_dependency(link_with: m, sources: gen_h, dependencies: zdep)
-sp = subproject('spa', default_options: ['flag=true', 'name=zz'])
-spdep = sp.get_variable('spa_dep')
-sp2 = subproject('spb')
-exe = executable('main', 'main.c', gen_c, dependencies: [mdep, spdep, sp2.get_variable('spb_dep')], install: true, c_args: ['-DE2', '-DE1'])
-exe2 = executable('tool', 'tool.c', link_with: b.get_static_lib(), native: false)
-pkg.generate(m, name: 'mlib', description: 'm', requires: [], libraries: [z], extra_cflags: ['-DX_B', '-DX_A'], variables: ['zvar=1', 'avar=2'], subdirs: ['sub2', 'sub1'])
-pkg.generate(b, description: 'b lib', requires: m)
-install_data('data/z.txt', 'data/a.txt', install_dir: get_option('datadir') / 'rich')
-install_headers('inc/pub_z.h', 'inc/pub_a.h', subdir: 'rich')
-install_man('man/rich.1', 'man/arich.3')
-install_subdir('tree', install_dir: get_option('datadir') / 'rich')
-e = environment({'ZED': '1', 'ABC': '2'})
-e.append('PATHISH', 'x', 'y')
-e.prepend('LAST', 'l')
-e.set('MIDDLE', 'm')
-test('t_z', exe, env: e, suite: ['s_z', 's_a'], args: ['--z', '--a'], depends: [exe2, gen_h])
-test('t_a', exe2, env: ['Q=1', 'P=2'], suite: 's_a', is_parallel: false, timeout: 7, priority: 3)
-benchmark('bench', exe2)
-run_target('rt', command: [exe2, '--x'], depends: m)
-alias_target('ali', exe, exe2)
-summary({'zeta': 1, 'alpha': 'a', 'mid': true}, section: 'Sec B')
-summary({'k2': get_option('strop'), 'k1': get_option('combop')}, section: 'Sec A')
-foreach f : ['src1/z.c', 'src1/a.c']
-  executable('x_' + fs.stem(f), f)
-endforeach
-subdir('src2')
-''',
-    'meson.options': '''option('strop', type: 'string', value: 'sv')
-option('combop', type: 'combo', choices: ['z', 'a', 'm'], value: 'a')
-option('boolop', type: 'boolean', value: true)
-option('intop', type: 'integer', min: 0, max: 10, value: 3)
-option('arrop', type: 'array', choices: ['z', 'y', 'a'], value: ['y', 'a'])
-option('featop', type: 'feature', value: 'auto')
-option('zz_last', type: 'string', value: '')
-option('aa_first', type: 'string', value: '')
-''',
-    'tmpl.in': 'a=@ALPHA@ z=@ZETA@ #mesondefine MID\n',
-    'g.h.in': '#define G 1\n', 'g.c.in': 'int g1(void) { return 1; }\n',
-    'z.c': 'int zf(void) { return 1; }\n', 'm.c': '#include "g.h"\nint zf(void); int mf(void) { return zf() + G; }\n',
-    'b.c': 'int mf(void); int bf(void) { return mf(); }\n',
-    'main.c': '#include "g.h"\nint mf(void); int g1(void); int spa(void); int spb(void); int main(void) { return mf() + g1() + spa() + spb() - 5; }\n',
-    'tool.c': 'int bf(void); int main(void) { return bf() - 2; }\n',
-    'inc/pub_z.h': '', 'inc/pub_a.h': '', 'inc2/x.h': '', 'data/z.txt': 'z', 'data/a.txt': 'a', 'man/rich.1': '', 'man/arich.3': '',
-    'tree/z/f1': '1', 'tree/a/f2': '2', 'tree/m.txt': 'm', 'src1/z.c': 'int main(void){return 0;}\n', 'src1/a.c': 'int main(void){return 0;}\n',
-    'src2/meson.build': "executable('s2_z', 'z.c')\nexecutable('s2_a', 'a.c', install: true, install_dir: 'libexec')\nsubdir('deep')\n",
-    'src2/z.c': 'int main(void){return 0;}\n', 'src2/a.c': 'int main(void){return 0;}\n',
-    'src2/deep/meson.build': "static_library('deep', 'd.c')\n", 'src2/deep/d.c': 'int d(void){return 0;}\n',
-    'subprojects/spa/meson.build': "project('spa', 'c', version: '0.1', default_options: ['default_library=static'])\nl = library('spa', 'spa.c', c_args: get_option('flag') ? ['-DFLAG'] : [])\nspa_dep = declare_dependency(link_with: l)\ninstall_data('spa.txt')\ntest('spa_t', executable('spa_e', 'e.c'))\n",
-    'subprojects/spa/meson.options': "option('flag', type: 'boolean', value: false)\noption('name', type: 'string', value: 'n')\noption('strop', type: 'string', value: 'spv', yield: true)\n",
-    'subprojects/spa/spa.c': 'int spa(void) { return 1; }\n', 'subprojects/spa/e.c': 'int main(void){return 0;}\n', 'subprojects/spa/spa.txt': 's',
-    'subprojects/spb/meson.build': "project('spb', 'c')\nl = static_library('spb', 'spb.c')\nspb_dep = declare_dependency(link_with: l)\n",
-    'subprojects/spb/spb.c': 'int spb(void) { return 1; }\n',
-}
-
-NOLANG = {
-    'meson.build': '''project('nolang', version: '3', meson_version: '>=1.0')
-cd = configuration_data({'Z': 'z', 'A': 'a', 'M': 1})
-configure_file(output: 'out.h', configuration: cd)
-configure_file(input: 'in.txt', output: 'copied.txt', copy: true)
-foreach n : ['zeta', 'alpha', 'mid']
-  custom_target(n, input: 'in.txt', output: n + '.txt', command: ['cp', '@INPUT@', '@OUTPUT@'], build_by_default: true, install: true, install_dir: 'share/nl', install_tag: n)
-endforeach
-install_data('in.txt', rename: 'renamed.txt', install_dir: 'share/nl')
-install_emptydir('share/nl/empty_z', 'share/nl/empty_a')
-install_symlink('lnk', pointing_to: 'renamed.txt', install_dir: 'share/nl')
-t = find_program('true')
-foreach n : ['tz', 'ta', 'tm']
-  test(n, t, suite: n, env: {'Z': '1', 'A': '2'})
-endforeach
-subproject('s1')
-subproject('s0')
-''',
-    'in.txt': 'x\n',
-    'subprojects/s1/meson.build': "project('s1')\ncustom_target('s1t', output: 'o.txt', command: ['touch', '@OUTPUT@'], build_by_default: true)\n",
-    'subprojects/s0/meson.build': "project('s0')\nconfigure_file(output: 's0.h', configuration: {'K': 1})\n",
-}
+from verif.projects import RICH, NOLANG
 
 
 def fingerprint(bdir):
